@@ -25,7 +25,7 @@ func ruleRawVsCompressed(c *Ctx, r *Report, prefix string) {
 		return ok && stdCalleeName(call) == "(*bytes.Buffer).Len"
 	})
 	var ucB, ccB *ssa.BasicBlock
-	for _, b := range fn.Blocks {
+	for _, b := range theCtx.GB(fn) {
 		for _, ins := range b.Instrs {
 			if isCallTo(ins, wUC) {
 				ucB = b
